@@ -42,6 +42,9 @@ RecChecks(kt, c, F) ==
        Chk("C08", "pairs_sorted", IsSortedPairs(c.pairs)),
        \* C04: every record the library returns encodes to bytes that its own decoder takes back as an equal record
        Chk("C04", "returned_record_decodes_back_to_an_equal_record", c.again # <<FALSE>>),
+       \* C05: ... "and is accepted again by the decoder" -- the implementation's own, whatever the specification thinks of
+       \* the bytes (also where it leaves them open, e.g. the inside of list values under custom keys)
+       Chk("C05", "accepted_again_by_the_decoder", c.again # <<FALSE>>),
        \* whatever produced the record: its node id is the id of the key its own public-key accessor returns
        Chk("C10", "nid_from_public_key", c.nid_pk # <<>> => c.nid_pk = <<c.nid>>),
        Chk("TOOL", "rec_facts_match", factsOk)>>
@@ -52,9 +55,7 @@ RecChecks(kt, c, F) ==
        \o When(D.verdict = "accept",
          <<Chk("C10", "nid_is_hash_of_pk", c.nid = D.nid),
            Chk("C10", "nid_from_public_key_accessor_works", c.nid_pk # <<>>),
-           Chk("C05", "public_key_accessor", c.pk = <<D.pk>>),
-           \* the implementation's own decoder takes the record's encoding back, as an equal record
-           Chk("C05", "accepted_again_by_the_decoder", c.again = <<TRUE>>)>>))
+           Chk("C05", "public_key_accessor", c.pk = <<D.pk>>)>>))
 
 (***************************************************************************)
 (* Extended observation of a record: text forms, typed accessors, getters, *)
@@ -366,7 +367,11 @@ CallChecks(e) ==
       \* variable-length scheme a size refusal is admissible whenever the call could not know the final length
       soft == A.soft \cup (IF KBase(e.kt) = "var" THEN {"ExceedsMaxSize"} ELSE {})
   IN OutcomeRule(e, A.hard, soft, A)
-     \o <<Chk("C08", "update_must_succeed", (A.hard = {} /\ soft = {}) => ok)>>
+     \o <<Chk("C08", "update_must_succeed", (A.hard = {} /\ soft = {}) => ok),
+          \* C14 presupposes that a typed setter STORES a value of its type: a refusal without any cause is charged there too
+          Chk("C14", "typed_setter_stores_the_value",
+              (e.m \in {"set_ip", "set_tcp4", "set_tcp6", "set_udp4", "set_udp6", "set_udp_socket", "set_tcp_socket", "set_client_info"}
+               /\ A.hard = {} /\ soft = {}) => ok)>>
      \o When(ok,
          <<Chk("C07", "seq_after_update", c.seq = A.seq),
            Chk("C08", "pairs_after_update", c.pairs = A.pairs),
@@ -389,7 +394,8 @@ BuildChecks(e) ==
             typedErr |-> (B.hard \ {"SigningError", "ExceedsMaxSize"}) # {}]
       soft == B.soft \cup (IF KBase(e.kt) = "var" THEN {"ExceedsMaxSize"} ELSE {})
   IN OutcomeRule(e, B.hard, soft, A)
-     \o <<Chk("C08", "build_must_succeed", (B.hard = {} /\ soft = {}) => ok)>>
+     \o <<Chk("C08", "build_must_succeed", (B.hard = {} /\ soft = {}) => ok),
+          Chk("C14", "builder_stores_the_values", (B.hard = {} /\ soft = {}) => ok)>>
      \o When(ok,
          LET c == e.tab[e.post] IN
          <<Chk("C07", "seq_of_built_record", c.seq = B.seq),
@@ -416,7 +422,10 @@ CompareChecks(e) ==
        Chk("C15", "equal_implies_same_hash", r.eq_ab => r.hash_eq),
        Chk("C15", "differs_on_seq_key_or_signature",
            (a.seq # b.seq \/ a.nid # b.nid \/ a.sig # b.sig \/ a.pk # b.pk) => ~r.eq_ab),
-       Chk("C15", "compare_content", r.cc_ab = (a.seq = b.seq /\ a.pairs = b.pairs))>>
+       Chk("C15", "compare_content", r.cc_ab = (a.seq = b.seq /\ a.pairs = b.pairs)),
+       \* Clone::clone_from: a record refreshed in place from another one is that other one
+       Chk("C15", "clone_from_yields_the_source", r.cf_same),
+       Chk("C10", "node_id_after_clone_from", r.cf_nid)>>
 
 (***************************************************************************)
 (* streams and lists of records (C13)                                      *)
